@@ -80,6 +80,10 @@ class Alphabet:
         def t_swap(old):
             return t[1] if old == t[0] else t[0]
 
+        def t_swap_offset(old):
+            # the same orbit, but the callable answers in a non-UTC zone
+            return t_swap(old).astimezone(_dt.timezone(_dt.timedelta(hours=5, minutes=45)))
+
         def m_swap(old):
             return "n" if old == "m" else "m"
 
@@ -98,7 +102,7 @@ class Alphabet:
             return {"w": 9}
 
         refmodel.UPD_FN.update(
-            t_swap=t_swap, m_swap=m_swap, tags_az=tags_az, tags_copy_b=tags_copy_b, f_inc=f_inc, f_w9=f_w9
+            t_swap=t_swap, t_swap_offset=t_swap_offset, m_swap=m_swap, tags_az=tags_az, tags_copy_b=tags_copy_b, f_inc=f_inc, f_w9=f_w9
         )
 
     # -- query vocabulary ----------------------------------------------------------------------
@@ -158,6 +162,7 @@ class Alphabet:
             ("test", "tags", ("a",), "is_none", ()),
             ("cmp", "tags", ("a", ("map", "upper")), "==", x.upper()),
             ("cmp", "tags", (("map", "rekey"), "z"), "==", x),
+            ("cmp", "tags", (("map", "join_ab"), "z"), "==", y + "+" + x),   # function over two entries of the tag set
             ("test", "tags", (("map", "nkeys"),), "is_even", ()),
             ("noop", "tags"),
         ]
@@ -178,6 +183,7 @@ class Alphabet:
             ("test", "fields", ("v",), "is_none", ()),
             ("cmp", "fields", ("v", ("map", "plus_one")), "==", 2),
             ("test", "fields", (("map", "nkeys"),), "is_even", ()),
+            ("cmp", "fields", (("map", "sum_vw"), "s"), "==", 5.5),              # function over two entries of the field set
             ("noop", "fields"),
         ]
         if level != "quick":
